@@ -2,7 +2,8 @@
    Case analysis on the groundness of the walked operands; [rcs] is what runs the other stored
    constraints after a binding (State::run_constraints). *)
 From Coq Require Import List ZArith Bool Arith.
-From PV Require Import Model.Term Model.Subst Model.Unify Model.FD Model.State Proofs.CLPZProofs.
+From PV Require Import Model.Term Model.Subst Model.Unify Model.FD Model.State Model.Engine Proofs.FDProofs Proofs.UnifyProofs
+  Proofs.CLPZProofs Proofs.DenProofs Proofs.FDDen Proofs.FDComp.
 Import ListNotations.
 Local Open Scope Z_scope.
 
@@ -76,6 +77,31 @@ Check C19_timesz_solve_v : forall rcs rc id st u v w a r x fl,
   run_constraint rcs rc id (KTimesZ u v w) st =
     if Z.eqb a 0 then (if Z.eqb r 0 then SOk (with_constraint_id st id (KTimesZ u v w)) else SFail)
     else if Z.eqb (Z.rem r a) 0 then rcs (set_smap st ((x, tnum (Z.quot r a)) :: st_smap st)) else SFail.
+(* plusz / timesz as posted goals, semantically, for any operands and any state (well-formed domains),
+   through every re-run of the other stored constraints that a binding triggers:
+   sound    - every valuation that solves the returned state solves the original state and satisfies
+              u + v = w (u * v = w) over the integers;
+   complete - every valuation that solves the original state and satisfies the equation solves the
+              returned state, and failure is returned only when there is none. *)
+Theorem C19_plusz_sound : forall u v w st st' th, WFD st -> post_constraint (KPlusZ u v w) st = SOk st' -> MstF th st' ->
+  MstF th st /\ exists a b r, numv th u a /\ numv th v b /\ numv th w r /\ a + b = r.
+Proof.
+  intros u v w st st' th W E HM. pose proof (post_constraint_FC (KPlusZ u v w) st W) as H. rewrite E in H. destruct H as [S HC].
+  split; [eapply MstF_SolF; eauto|exact (HC th HM)].
+Qed.
+Theorem C19_timesz_sound : forall u v w st st' th, WFD st -> post_constraint (KTimesZ u v w) st = SOk st' -> MstF th st' ->
+  MstF th st /\ exists a b r, numv th u a /\ numv th v b /\ numv th w r /\ a * b = r.
+Proof.
+  intros u v w st st' th W E HM. pose proof (post_constraint_FC (KTimesZ u v w) st W) as H. rewrite E in H. destruct H as [S HC].
+  split; [eapply MstF_SolF; eauto|exact (HC th HM)].
+Qed.
+Theorem C19_plusz_complete : forall u v w st, WFD st ->
+  sresCP (fun th => exists a b r, numv th u a /\ numv th v b /\ numv th w r /\ a + b = r) st (post_constraint (KPlusZ u v w) st).
+Proof. intros u v w st W. exact (post_constraint_C (KPlusZ u v w) st W). Qed.
+Theorem C19_timesz_complete : forall u v w st, WFD st ->
+  sresCP (fun th => exists a b r, numv th u a /\ numv th v b /\ numv th w r /\ a * b = r) st (post_constraint (KTimesZ u v w) st).
+Proof. intros u v w st W. exact (post_constraint_C (KTimesZ u v w) st W). Qed.
+
 Print Assumptions C19_plusz_ground.
 Print Assumptions C19_timesz_ground.
 Print Assumptions C19_plusz_solve_w.
@@ -88,3 +114,7 @@ Print Assumptions C19_times_solution.
 Print Assumptions C19_plusz_kept.
 Print Assumptions C19_timesz_kept.
 Print Assumptions C19_no_panic.
+Print Assumptions C19_plusz_sound.
+Print Assumptions C19_timesz_sound.
+Print Assumptions C19_plusz_complete.
+Print Assumptions C19_timesz_complete.
